@@ -630,6 +630,28 @@ PROPS["C18"] = dict(
     assumptions=PROPS["C01"]["assumptions"] + ["attribute writes at identifiers >= n_darts are outside the API contract (spare_untouched)"],
 )
 
+# ---- 3-map families of the cross-dimensional properties
+C03_CLASSES3 = {"1": "orbit differs from the closure of the policy's generators and inverses", "2": "transactional orbit differs from the plain one",
+                "3": "cell identifier is not the smallest dart of the cell", "4": "cell iterator wrong",
+                "5": "identifier query wrong when asked right after another identifier query"}
+PROPS["C03"]["families"] += [
+    Family("query3-random", "core3", r_core3("random", 500, 8000, 20, ["--darts", "9", "--query", "12"]), 50, [(54, "orbit_spec3", C03_CLASSES3)]),
+    Family("query3-cells", "core3", r_core3("cells", 150, 2500, 10, ["--query", "15"]), 50, [(54, "orbit_spec3", C03_CLASSES3)]),
+    Family("query3-hex", "core3", lambda tier, seed: ["--mode", "hexq", "--darts", {"quick": "2", "thorough": "3"}[tier]], 50,
+           [(54, "orbit_spec3", C03_CLASSES3)], exhaustive=True),
+]
+PROPS["C03"]["trusted"] = PROPS["C03"]["trusted"] + MAP3_TRUST[3:]
+PROPS["C06"]["families"] += [
+    Family("fault3", "core3", r_core3("random", 500, 8000, 25, ["--darts", "10", "--fault", "35"]), 50, [(52, "err_noop3", ERR_CLASSES)]),
+    Family("fault3-cells", "core3", r_core3("cells", 300, 5000, 12, ["--fault", "35"]), 50, [(52, "err_noop3", ERR_CLASSES)]),
+    Family("core3-faces", "core3", r_core3("faces", 1, 1), 50, [(52, "err_noop3", ERR_CLASSES)], exhaustive=True),
+]
+PROPS["C06"]["trusted"] = PROPS["C06"]["trusted"] + MAP3_TRUST[3:]
+PROPS["C18"]["families"] += [
+    Family("core3-random", "core3", r_core3("random", 1200, 25000, 25, ["--darts", "10"]), 50, [(55, "alloc_step3", ALLOC_CLASSES)]),
+]
+PROPS["C18"]["trusted"] = PROPS["C18"]["trusted"] + MAP3_TRUST[3:]
+
 
 def trusted_base(cfg, pr):
     tb = list(cfg.get("trusted", []))
